@@ -128,6 +128,8 @@ func (h *hs13Driver) classify(from string, data []byte, seals [][2]int) string {
 		return "F4"
 	case hasACK && from == "c":
 		if h.clientT {
+			h.clientT = false
+
 			return "AcT"
 		}
 
@@ -251,9 +253,8 @@ func runHs13Script(idx int, sc *hs13Script) hsResult { //nolint:cyclop,gocognit,
 				cookieEchoed = true
 			}
 			inputs[peerName(sender13(kind))]++
-			if kind == "T" && !strings.HasSuffix(st.Arg, "/s") {
-				h.clientT = true
-			}
+			// a ticket that reaches an ESTABLISHED client is processed and acknowledged at once
+			h.clientT = kind == "T" && !strings.HasSuffix(st.Arg, "/s") && estOf(r.c)
 			r.net.Deliver(dirOf(sender13(kind)), k)
 		case "Drop":
 			k, ok := h.take(st.Arg, false)
@@ -291,7 +292,7 @@ func runHs13Script(idx int, sc *hs13Script) hsResult { //nolint:cyclop,gocognit,
 				goto flush
 			}
 		}
-		if !r.waitQuiet(3 * time.Second) {
+		if !waitQuiet13(r, 3*time.Second) {
 			res.Lab = fmt.Sprintf("step %d: not quiescent", i)
 
 			return res
@@ -403,12 +404,10 @@ flush:
 			for len(h.pending[kind]) > 0 {
 				t := h.pending[kind][0]
 				h.pending[kind] = h.pending[kind][1:]
-				if kind == "T" {
-					h.clientT = true
-				}
+				h.clientT = kind == "T" && estOf(r.c)
 				r.net.Deliver(dirOf(sender13(kind)), t.idx)
 				moved = true
-				if !r.waitQuiet(3 * time.Second) {
+				if !waitQuiet13(r, 3*time.Second) {
 					res.Lab = "flush: not quiescent"
 
 					return res
@@ -429,7 +428,7 @@ flush:
 					fired = true
 				}
 			}
-			if !fired || !r.waitQuiet(3*time.Second) {
+			if !fired || !waitQuiet13(r, 3*time.Second) {
 				break
 			}
 			h.absorb()
@@ -445,6 +444,30 @@ flush:
 	}
 
 	return res
+}
+
+// waitQuiet13: quiescence for DTLS 1.3 endpoints - a flight machine in Finished runs the post-handshake loop, which is
+// idle only once it blocks in its select again (ph.idle hook), not when the Finished state is traced.
+func waitQuiet13(r *labRun, timeout time.Duration) bool {
+	deadline := time.Now().Add(timeout)
+	for {
+		if !r.waitQuiet(time.Until(deadline)) {
+			return false
+		}
+		ok := true
+		for _, p := range []*labPeer{r.c, r.s} {
+			if s, _ := p.state.Load().(string); s == "Finished" && !p.conn.isConnectionClosed() && p.phIdle.Load() != 1 {
+				ok = false
+			}
+		}
+		if ok && r.waitQuiet(time.Until(deadline)) {
+			return true
+		}
+		if time.Now().After(deadline) {
+			return false
+		}
+		time.Sleep(30 * time.Microsecond)
+	}
 }
 
 func peerName(e string) string {
@@ -511,7 +534,7 @@ func TestVerifHs13Scripts(t *testing.T) {
 		if len(r.Law) > 0 {
 			sum["law"]++
 		}
-		if !r.Completed || len(r.Diverge) > 0 || len(r.Law) > 0 || r.Lab != "" {
+		if !r.Completed || len(r.Diverge) > 0 || len(r.Law) > 0 || r.Lab != "" || os.Getenv("VERIF_KEEP_EVENTS") != "" {
 			_ = enc.Encode(r)
 		}
 	}
